@@ -85,9 +85,9 @@ def isFinite : Dbl → Bool
   | .fin _ _ _ => true
   | _ => false
 
-/-- the positive rational `n/d` (`n, d > 0`) rounded to the nearest binary64, ties to even; the result is in the
-    canonical form `ofBits` produces (`2^52 ≤ m < 2^53`, or `e = -1074` and `m < 2^52`) -/
-def roundPos (neg : Bool) (n d : Nat) : Dbl :=
+/-- the positive rational `n/d` (`n, d > 0`) rounded to the nearest binary64, ties to even: mantissa and exponent in the
+    canonical form `ofBits` produces (`2^52 ≤ m < 2^53`, or `e = -1074` and `m < 2^52`); overflow is `e ≥ 972` -/
+def roundCore (n d : Nat) : Nat × Int :=
   -- 2^(k-1) < n/d < 2^(k+1)
   let k : Int := (Nat.log2 n : Int) - (Nat.log2 d : Int)
   let e0 : Int := k - 52
@@ -101,7 +101,12 @@ def roundPos (neg : Bool) (n d : Nat) : Dbl :=
   let q' := if d2 < 2 * r ∨ (2 * r = d2 ∧ q % 2 = 1) then q + 1 else q
   let m := if q' = 2 ^ 53 then 2 ^ 52 else q'
   let ee := if q' = 2 ^ 53 then e + 1 else e
-  if 2 ^ 52 ≤ m ∧ 972 ≤ ee then .inf neg else .fin neg m ee
+  (m, ee)
+
+/-- `±n/d` rounded to binary64 (round to nearest even, overflow to infinity) -/
+def roundPos (neg : Bool) (n d : Nat) : Dbl :=
+  let me := roundCore n d
+  if 2 ^ 52 ≤ me.1 ∧ 972 ≤ me.2 then .inf neg else .fin neg me.1 me.2
 
 def neg : Dbl → Dbl
   | .fin s m e => .fin (!s) m e
@@ -390,6 +395,10 @@ def Engine.name (e : Engine) : String := Gen.engineNames.getD e.index "?"
 
 def Engine.isDouble : Engine → Bool
   | .cr64 => true | .cr64s => true | _ => false
+
+/-- which conversion kernels `soxr_create` installs: `_soxr_deinterleave_f/_soxr_interleave_f` (float engines) or
+    `_soxr_deinterleave/_soxr_interleave` (double engines) -/
+def Engine.floatKernels (e : Engine) : Bool := !e.isDouble
 
 def Engine.isSimd : Engine → Bool
   | .cr32s => true | .cr64s => true | _ => false
